@@ -1,8 +1,8 @@
 #!/bin/bash
 # runs every registered check of a tier (default quick), N at a time, and validates MANIFEST + evidence
 tier="${1:-quick}"; par="${2:-4}"
-cd /verif || exit 2
+cd "$(dirname "$(readlink -f "$0")")" || exit 2
 ids=$(python3 -c "from checks_table import CHECKS; print(' '.join(sorted(CHECKS)))")
 mkdir -p .build/runall
 printf '%s\n' $ids | xargs -P "$par" -I{} sh -c "./vcheck {} $tier > .build/runall/{}.$tier.log 2>&1; echo \"{} exit=\$?  \$(tail -1 .build/runall/{}.$tier.log | cut -c1-200)\""
-python3-vt tools_validate.py
+[ -z "${VERIF_EVIDENCE_DIR:-}" ] && python3-vt tools_validate.py
